@@ -9,6 +9,7 @@ import (
 	"net/http"
 	"net/http/httptest"
 	"net/url"
+	"os"
 	"runtime"
 	"strings"
 	"sync"
@@ -28,6 +29,7 @@ type Fataler interface {
 type Effect struct {
 	N    atomic.Int64
 	Bad  atomic.Value  // string: a delivered webhook did not carry what was configured
+	Drop bool          // webhook receiver: count the call, then drop the connection without answering
 	Hold chan struct{} // non-nil: every execution blocks until the channel is closed (a hung webhook)
 }
 
@@ -43,6 +45,10 @@ func (e *Effect) Exec() error {
 // (cbreaker.NewWebhookSideEffect) against a loopback server of the harness instead of an
 // in-process effect: one delivered call per transition, carrying what was configured.
 var UseWebhooks bool
+
+// WebhookDrop (with UseWebhooks): the receiver takes every call and then drops the connection
+// instead of answering; the call was delivered all the same, once.
+var WebhookDrop bool
 
 var (
 	hookOnce    sync.Once
@@ -73,12 +79,25 @@ func hookServer() (string, error) {
 					e.Bad.Store(fmt.Sprintf("webhook arrived as %s with X-Hook-Token %q and form %v; configured: POST, [t1 t2], event=transition", r.Method, r.Header.Values("X-Hook-Token"), r.PostForm))
 				}
 				e.N.Add(1)
+				if e.Drop {
+					// the receiver has taken the call but its answer never arrives
+					if hj, ok := w.(http.Hijacker); ok {
+						if c, _, err := hj.Hijack(); err == nil {
+							c.Close()
+							return
+						}
+					}
+				}
 				_, _ = w.Write([]byte("ok"))
 			}))
 		}()
 	})
 	return hookAddr, hookErr
 }
+
+// Decoy makes New build a second, unrelated breaker (other durations) right after the one it
+// returns.
+var Decoy bool
 
 // BlockEffects makes the side effects of drivers built afterwards hang until the driver is
 // closed: a transition must start its side effect whether or not an earlier one has returned.
@@ -126,8 +145,11 @@ type Driver struct {
 	F, R, P   time.Duration
 	// NextCtx, when set, is the context of the next request only ("cancelled": the client has
 	// already gone away; "expired": an outer deadline has already passed).
-	NextCtx   string
-	hookPaths []string
+	NextCtx string
+	// ImplicitOK: a request finished with status 200 does not call WriteHeader at all, it only
+	// writes a body (net/http's implicit 200)
+	ImplicitOK bool
+	hookPaths  []string
 }
 
 type Flight struct {
@@ -138,6 +160,17 @@ type Flight struct {
 // New freezes the clock and builds the breaker. Call Close when done.
 func New(t Fataler, expr string, f, r, p time.Duration, phase time.Duration) *Driver {
 	clock.Freeze(Epoch.Add(phase))
+	if dis := os.Getenv("VERIF_DISABLE"); dis != "" { // debugging aid: switch generator features off on replay
+		if strings.Contains(dis, "DECOY") {
+			Decoy = false
+		}
+		if strings.Contains(dis, "BLOCK") {
+			BlockEffects = false
+		}
+		if strings.Contains(dis, "HOOK") {
+			UseWebhooks = false
+		}
+	}
 	d := &Driver{T: t, Gate: &sim.Gate{}, OnTripped: &Effect{}, OnStandby: &Effect{}, F: f, R: r, P: p}
 	if BlockEffects {
 		d.OnTripped.Hold, d.OnStandby.Hold = make(chan struct{}), make(chan struct{})
@@ -154,6 +187,7 @@ func New(t Fataler, expr string, f, r, p time.Duration, phase time.Duration) *Dr
 			t.Fatalf("%v", err)
 		}
 		mk := func(e *Effect, what string) cbreaker.SideEffect {
+			e.Drop = WebhookDrop
 			path := fmt.Sprintf("/%d/%s", hookSeq.Add(1), what)
 			hookTargets.Store(path, e)
 			d.hookPaths = append(d.hookPaths, path)
@@ -176,6 +210,14 @@ func New(t Fataler, expr string, f, r, p time.Duration, phase time.Duration) *Dr
 		t.Fatalf("cbreaker.New(%q): %v", expr, err)
 	}
 	d.CB = cb
+	if Decoy {
+		// another, unrelated breaker is built afterwards in the same process with very different
+		// timing and its own handler: nothing about the first one may change
+		if _, err := cbreaker.New(http.NotFoundHandler(), "NetworkErrorRatio() > 0.1", cbreaker.FallbackDuration(time.Millisecond),
+			cbreaker.RecoveryDuration(time.Millisecond), cbreaker.CheckPeriod(time.Hour)); err != nil {
+			t.Fatalf("second breaker: %v", err)
+		}
+	}
 	return d
 }
 
@@ -262,6 +304,9 @@ func (d *Driver) Finish(i int, status int, info ...int) {
 	f := d.InFlight[i]
 	d.InFlight = append(d.InFlight[:i], d.InFlight[i+1:]...)
 	o := sim.Outcome{Status: status}
+	if status == 200 && d.ImplicitOK && !strings.Contains(os.Getenv("VERIF_DISABLE"), "IMPLICIT") {
+		o = sim.Outcome{Status: 0, Body: "ok"}
+	}
 	if len(info) > 0 {
 		o.Info = info[0]
 	}
